@@ -206,7 +206,7 @@ class FlagHistory(Contract):
         fm = [(True, 3, 1), (False, 2, 0)] if tier == 'quick' else [(True, 3, 1), (False, 2, 0), (True, 8, 4), (False, 8, -1)]
         for (s, n, f) in fm:
             for rule, mode in [('trunc', 'saturate'), ('around', 'wrap')] if tier == 'quick' else MODES:
-                for mid in ('write', 'reset', 'resize_same', 'raising_callback'):
+                for mid in ('write', 'reset', 'resize_same', 'raising_callback', 'appended_callback'):
                     yield dict(fmt=[s, n, f], rule=rule, mode=mode, mid=mid)
 
     def inputs(self, cfg, D):
@@ -217,6 +217,16 @@ class FlagHistory(Contract):
     def run(self, cfg, P, inp):
         s, n, f = cfg['fmt']
         cb = RecCallback()
+        if cfg['mid'] == 'appended_callback':
+            # the callback is registered AFTER construction, by appending to the object's own list; writes to another,
+            # independently built object must not reach it, and objects built later must not start with it
+            x = P.Fxp(inp['v'][0], s, n, f, rounding=cfg['rule'], overflow=cfg['mode'])
+            x.callbacks.append(cb)
+            y = P.Fxp(inp['v'][1], s, n, f, rounding=cfg['rule'], overflow=cfg['mode'])
+            y.set_val(inp['v'][1])
+            foreign = len(cb.log)
+            x.set_val(inp['v'][2])
+            return {'status': dict(x.status), 'val': x.val, 'log': sorted(cb.log), 'tail': sorted(cb.log), 'foreign': foreign, 'y_has_cb': len(y.callbacks)}
         x = P.Fxp(inp['v'][0], s, n, f, rounding=cfg['rule'], overflow=cfg['mode'], callbacks=[cb])
         mark = None
         if cfg['mid'] == 'raising_callback':
@@ -253,6 +263,10 @@ class FlagHistory(Contract):
             return R > hi, R < lo, Not(eq(scale2(c, -f), v))
         w = [conds(v) for v in vs]
         steps = [0, 2] if cfg['mid'] not in ('write', 'raising_callback') else [0, 1, 2]
+        if cfg['mid'] == 'appended_callback':
+            out_extra = {'callbacks_only_own_writes': And(obs['foreign'] == 0, obs['y_has_cb'] == 0)}
+        else:
+            out_extra = {}
         if cfg['mid'] == 'reset':
             steps = [2]
         st = obs['status']
@@ -260,6 +274,7 @@ class FlagHistory(Contract):
         for k, name in enumerate(('overflow', 'underflow', 'inaccuracy')):
             out['history_' + name] = Iff(B(st[name]), Or(*[w[i][k] for i in steps]))
         out['final_code'] = eq(M(elems(obs['val'])[0]), Q(vs[2], s, n, f, cfg['rule'], cfg['mode']))
+        out.update(out_extra)
         if obs.get('tail') is not None:
             t = obs['tail']
             out['callbacks_after_exception'] = And(Iff('overflow' in t, w[2][0]), Iff('underflow' in t, w[2][1]), Iff('inaccuracy' in t, w[2][2]),
